@@ -70,7 +70,31 @@ def judgeConv (payload impl : String) : Verdict :=
           cls := s!"n={min conv.length 4}", model := m.toStr, spec := want.toStr }
   | _ => .bad "bad-case"
 
-/-- http.entry: path, query parameters, method and status of the entry Analyze builds -/
+def pairsOfSx : Sx → Option (List (Bytes × Bytes))
+  | .list (.atom _ :: xs) => xs.mapM fun
+      | .list [a, b] => do some ((← a.asBytes?), (← b.asBytes?))
+      | _ => none
+  | _ => none
+
+/-- the entry map must be the merge of the item list -/
+def mergedOk (l m : Sx) : Bool :=
+  match pairsOfSx l, pairsOfSx m with
+  | some l, some m => Spec.mergeMap l == m
+  | _, _ => false
+
+def entryOk (e : Sx) (q r : Spec.Msg) : Bool :=
+  match e with
+  | .list [.atom "e", m, p, qq, st, .list [.atom "qh", l1, m1], .list [.atom "qc", l2, m2],
+      .list [.atom "rh", l3, m3], .list [.atom "rc", l4, m4]] =>
+    (Sx.list [.atom "e", m, p, qq, st]).toStr == (Spec.expectedEntry q r).toStr &&
+    mergedOk l1 m1 && mergedOk l2 m2 && mergedOk l3 m3 && mergedOk l4 m4 &&
+    pairsOfSx l2 == some (Spec.cookiesOf q.headers) &&
+    (pairsOfSx l4).map Spec.sortPairs == some (Spec.sortPairs (Spec.setCookiesOf r.headers))
+  | _ => false
+
+/-- http.entry: what Analyze builds: path, query parameters, method, status; the header and cookie
+    maps of both sides (every value of a repeated name, joined, none dropped); the cookies themselves
+    as sent on the Cookie / Set-Cookie lines -/
 def judgeEntry (payload impl : String) : Verdict :=
   match Sx.parse payload with
   | some (.list exs) =>
@@ -80,8 +104,11 @@ def judgeEntry (payload impl : String) : Verdict :=
       -- a HEAD exchange with a Content-Length disturbs the framing of what follows (recorded finding)
       let tags := if conv.any (fun (q, r) => q.method == bytesOfString "HEAD" &&
             r.headers.any (fun h => Wire.lower h.1 == bytesOfString "content-length")) then ["http-head-response-body"] else []
-      let want := (Spec.expectedEntries conv).toStr
-      { corr := !tags.isEmpty || want == impl, implSpec := want == impl, modelSpec := true, tags, nontrivial := !conv.isEmpty,
+      let ok := match Sx.parse impl with
+        | some (.list es) => es.length == conv.length && (es.zip conv).all fun (e, (q, r)) => entryOk e q r
+        | _ => false
+      let want := (Spec.expectedEntries conv).toStr ++ " + header / cookie maps = merge of the item lists; cookies = those of the Cookie / Set-Cookie lines"
+      { corr := !tags.isEmpty || ok, implSpec := ok, modelSpec := true, tags, nontrivial := !conv.isEmpty,
         cls := s!"n={min conv.length 4}", model := want, spec := want }
   | _ => .bad "bad-case"
 
@@ -91,6 +118,18 @@ def judgeSplit (payload impl : String) : Verdict :=
   match Sx.parse payload with
   | some (.list [conv, _, _]) => judgeConv conv.toStr impl
   | _ => .bad "bad-case"
+
+/-- http.rawsplit: streams that are not well-formed conversations, whole and in pieces: what is
+    emitted and how the halves end must not depend on the segmentation -/
+def judgeRawSplit (_payload impl : String) : Verdict :=
+  match Sx.parse impl with
+  | some (.list [.list [.atom "whole", a], .list [.atom "split", b]]) =>
+    let ok := a.toStr == b.toStr
+    let crashed := (impl.splitOn "panic").length > 1
+    { corr := ok, implSpec := ok && !crashed, modelSpec := true, tags := [], nontrivial := true,
+      cls := "rawsplit", model := a.toStr, spec := "the observation of the unsplit bytes" }
+  | _ => { corr := false, implSpec := false, modelSpec := true, tags := [], nontrivial := true,
+           cls := "no-observation", model := "-", spec := "the observation of the unsplit bytes" }
 
 /-! ### HTTP/2 -/
 
